@@ -132,7 +132,7 @@ POOL_SRC = [
 ]
 STMTS = [ENG(t) for t in POOL_SRC]
 NP = len(STMTS)
-HEAVY = set(i for i, t in enumerate(POOL_SRC) if any(w in t for w in ('groupBy', 'dict(', 'join(', 'toDict', 'distinct', 'indexOf')))
+HEAVY = set(i for i, t in enumerate(POOL_SRC) if any(w in t for w in ('groupBy', 'dict(', 'join(', 'toDict', 'distinct', 'indexOf', 'str(', 'float(', '.any(', 'in $.b')))
 SBOX = [(i,) for i in range(NP)]
 
 
